@@ -505,7 +505,15 @@ def plan_extra(c):
         c.tlc_mc("MC_Async-" + fam, "MC_Async", cfg_text=base.replace('Fam = "v3"', 'Fam = "%s"' % fam), workers=1)
     a, _ = tv(c, "dec3", "Trace_Async", "Trace.cfg", "EXTRA async decoder stops at the parser's decision point")
     c.traces += a
-    return m + a
+    # the poll decoder's caller-held state against the implementation-shaped PollDecoder.tla, one event per action
+    # (one trace file holds one family: Fam <- the family of the first event)
+    k = 0
+    for fam in ("v3", "v5"):
+        files, _ = c.record("pollimpl", name="pollimpl-" + fam, shard=4000, extra=["--fam", fam])
+        k += c.validate("Trace_PollImpl", files, cfg="Trace_PollImpl.cfg", per_run=True, procs=12,
+                        what="EXTRA caller-held poll state = PollDecoder.tla (%s)" % fam)
+    c.traces += k
+    return m + a + k
 
 
 PLANS["EXTRA"] = {"plan": plan_extra, "level": "model_checking", "claim": "not claimed", "technique": "trace validation",
